@@ -248,7 +248,7 @@ Qed.
 
 Theorem b64_roundtrip s : bytes s -> b64_decode (b64_encode s) = B64Ok s.
 Proof.
-  intro Hs. unfold b64_decode. rewrite b64_pad_count_encode, (b64_encode_no_newline s Hs).
+  intro Hs. unfold b64_decode. rewrite (b64_encode_no_newline s Hs), b64_pad_count_encode.
   exact (b64_stream_roundtrip s Hs).
 Qed.
 
@@ -375,12 +375,12 @@ Qed.
 
 (* The repaired reader (pad by the number of non-newline characters) decodes
    every text that is an encoding with CR/LF inserted anywhere. *)
-Theorem b64_fixed_accepts_newlines s t : bytes s ->
-  strip_newlines t = b64_encode s -> b64_decode_fixed t = B64Ok s.
+(* text with CR / LF inserted anywhere (line-wrapped, newline-terminated),
+   padded or not, decodes to the bytes *)
+Theorem b64_accepts_newlines s t : bytes s ->
+  (strip_newlines t = b64_encode s \/ strip_newlines t = strip_pad (b64_encode s)) -> b64_decode t = B64Ok s.
 Proof.
-  intros Hs Ht. unfold b64_decode_fixed. rewrite Ht, b64_pad_count_encode.
-  exact (b64_stream_roundtrip s Hs).
+  intros Hs [Ht|Ht]; unfold b64_decode; rewrite Ht.
+  - rewrite b64_pad_count_encode. exact (b64_stream_roundtrip s Hs).
+  - exact (b64_stream_unpadded s Hs).
 Qed.
-
-(* non-string input is rejected before the codec is reached: modelled at the
-   operator level in Model/Codecs.v *)
